@@ -1545,13 +1545,13 @@ def memory_presence_by_membership(ctx: Ctx, rule: str) -> int:
     return n
 
 
-def _exists_arg(ctx: Ctx, f: Func, e: ast.AST, depth: int = 0) -> Optional[ast.AST]:
+def _exists_arg(ctx: Ctx, f: Func, e: ast.AST, depth: int = 0, names: Tuple[str, ...] = ("exists", "lexists", "isfile")) -> Optional[ast.AST]:
     """the expression whose existence the call `e` asks about: `os.path.exists(X)` (lexists / isfile / islink), directly or through a thin package helper
     whose body returns such a call on its parameter (`def _exists(p): return os.path.exists(p)`)"""
     if not (isinstance(e, ast.Call) and e.args):
         return None
     fn = unparse(e.func)
-    if fn.split(".")[-1] in ("exists", "lexists", "isfile", "islink") and "path" in fn:
+    if fn.split(".")[-1] in names and "path" in fn:
         return e.args[0]
     if depth < 2:
         fs, _ = ctx.prog.callees(f, e, ctx._types)
@@ -1560,7 +1560,7 @@ def _exists_arg(ctx: Ctx, f: Func, e: ast.AST, depth: int = 0) -> Optional[ast.A
             body = [st for st in g.node.body if not (isinstance(st, ast.Expr) and isinstance(st.value, ast.Constant))]
             ps = [p_ for p_ in g.positional_params() if p_ not in ("self", "cls")]
             if len(body) == 1 and isinstance(body[0], ast.Return) and body[0].value is not None and len(ps) == 1 and len(e.args) == 1:
-                inner = _exists_arg(ctx, g, body[0].value, depth + 1)
+                inner = _exists_arg(ctx, g, body[0].value, depth + 1, names)
                 if isinstance(inner, ast.Name) and inner.id == ps[0]:
                     return e.args[0]
     return None
@@ -1586,6 +1586,10 @@ def reads_after_presence(ctx: Ctx, v: LocalView, rule: str) -> int:
             if a_ is not None:
                 t = m.expr_terms.get(id(a_))
                 return "exists:" + (show(t) if t is not None else unparse(a_))
+            a_ = _exists_arg(ctx, f, e, 0, ("islink",))
+            if a_ is not None:
+                t = m.expr_terms.get(id(a_))
+                return "islink:" + (show(t) if t is not None else unparse(a_))
             return None
         seen = set()
         for e in effs:
@@ -1612,6 +1616,17 @@ def reads_after_presence(ctx: Ctx, v: LocalView, rule: str) -> int:
                         f"read-unguarded:{method}:{show(e.term)[:40]}", what=f"{method} uses a name of the store without having seen it")
             else:
                 rep.ok(rule, _site(v, method), desc, e.where())
+            if is_resolve:
+                # ... and only when that name IS a link: the directory that holds the entries of longer paths is not a committed path
+                n += 1
+                d2 = f"{method} resolves {show(e.term)[:70]} only when it is a link (a path entry), not a directory of entries"
+                how = unparse(call.func).split(".")[-1] if isinstance(call, ast.Call) else ""
+                if how == "readlink" or not conj_possible(prog, func_, e.conds, {"islink:" + show(e.term): False}, atom_name):
+                    rep.ok(rule, _site(v, method), d2, e.where())
+                else:
+                    rep.bad(rule, _site(v, method), d2, e.where(), [f"{e.where()}: `{unparse(call, 50)}` is reached also when {show(e.term)} is a directory",
+                            "after the commit of '/k/x', fetch_paths(['/k']) answers {'/k': 'k'} for a path that was never committed (the key is the directory's name); when a segment equals "
+                            "an existing key, dds.load of the never-kept path serves that blob"], f"dir-for-path:{method}", what="fetch_paths takes a directory of path entries for a committed path")
     return n
 
 
